@@ -156,7 +156,9 @@ def gen_long_chain_sheet(rng):
     if rng.random() < 0.4:
         items.append(("rule", hops + 1, rng.choice([names[1], names[2] + " a", ".y"]), None))
     rng.shuffle(items)
-    return items, meta_of(items)
+    m = meta_of(items)
+    m["hops"] = hops
+    return items, m
 
 
 def gen_dup_sheet(rng):
@@ -202,6 +204,74 @@ def gen_floor_sheet(rng):
     ext = ("ext", 1, E, T, False, None)
     items = [rule, ext] if rng.random() < 0.5 else [ext, rule]
     return items, meta_of(items)
+
+
+def gen_weave_sheet(rng):
+    """Complex extenders woven into complex rules: descendant/child combinators only (the fragment of the weave theorems) in
+    70% of the sheets, sibling combinators otherwise; the target sits in any compound of the rule; no chains."""
+    sib = rng.random() < 0.3
+    combs = [" ", " ", " > "] + ([" + ", " ~ "] if sib else [])
+    cls = [".a", ".b", ".c", ".d", "a", "b", "#i", ".x", ".y", "[t]", ":hover"]
+
+    def compound(extra=None):
+        parts = rng.sample(cls[:9], rng.choice([1, 1, 2]))
+        parts.sort(key=lambda t: (0 if t[0].isalpha() else 1))
+        if sum(1 for t in parts if t[0].isalpha()) > 1:
+            parts = parts[1:]
+        if extra and extra not in parts:
+            parts.append(extra)
+        if rng.random() < 0.15:
+            parts.append(rng.choice(["[t]", ":hover"]))
+        return "".join(parts)
+
+    T = rng.choice([".t", "%p", ".t"])
+    nr = rng.choice([1, 2, 2, 3])
+    pos = rng.randrange(nr)
+    rule_parts = [compound(T if k == pos else None) if (k != pos or rng.random() < 0.5) else T for k in range(nr)]
+    rule_sel = rule_parts[0]
+    for part in rule_parts[1:]:
+        rule_sel += rng.choice(combs) + part
+    ne = rng.choice([2, 2, 3])
+    ext_sel = compound()
+    for _ in range(ne - 1):
+        ext_sel += rng.choice(combs) + compound()
+    if rng.random() < 0.2:
+        ext_sel += ", " + compound()
+    items = [("rule", 0, rule_sel, None), ("ext", 1, ext_sel, T, False, None)]
+    if rng.random() < 0.25:
+        T2 = rng.choice([p for p in [".a", ".b", "a"] if p not in ext_sel] or [".zz"])
+        items.append(("ext", 2, compound() + rng.choice(combs) + ".e", T2, True, None))
+    rng.shuffle(items)
+    m = meta_of(items)
+    m["weave_kind"] = "sibling" if any(c in rule_sel + ext_sel for c in "+~") else "desc-child"
+    return items, m
+
+
+def gen_cycle_sheet(rng):
+    """cycles of length 2-3 among single-class extenders (`.a{@extend .b} .b{@extend .a}` …) plus a rule on one member, optionally
+    a placeholder member and an @media-wrapped bystander; any order of rules and @extends"""
+    n = rng.choice([2, 2, 3])
+    names = [".a", ".b", ".c"][:n]
+    if rng.random() < 0.3:
+        names[rng.randrange(n)] = "%p"
+    items = []
+    for k in range(n):
+        items.append(("ext", k + 1, names[k], names[(k + 1) % n], False, None))
+    items.append(("rule", 0, rng.choice([names[0], names[1] + " a", "a" + names[0] if names[0][0] != "%" else names[0], ".x > " + names[-1]]), None))
+    if rng.random() < 0.3:
+        items.append(("rule", n + 1, ".z", rng.choice(MEDIA[1:])))
+    rng.shuffle(items)
+    m = meta_of(items)
+    m["cycle_len"] = n
+    return items, m
+
+
+def pe_norm(t):
+    """one spelling for the legacy pseudo-elements (`:after` is printed as written)"""
+    t = " ".join(t.split())
+    for n in ("after", "before", "first-line", "first-letter"):
+        t = t.replace("::" + n, ":" + n)
+    return t
 
 
 def gen_sheet(rng, uid):
@@ -360,6 +430,10 @@ def run(tier, seed):
         sheets.append(gen_long_chain_sheet(rng))
     for k in range(60 if not big else 300):
         sheets.append(gen_dup_sheet(rng))
+    for k in range(140 if not big else 1500):
+        sheets.append(gen_weave_sheet(rng))
+    for k in range(40 if not big else 300):
+        sheets.append(gen_cycle_sheet(rng))
     texts = [sheet_text(it) for it, _ in sheets]
     impl = compile_sheets(pool, texts)
     lap("compiled")
@@ -368,6 +442,7 @@ def run(tier, seed):
     lap("compiled swapped")
 
     failing = []
+    disagree_early = []
 
     def fail(case, payload, tags):
         p = dict(payload)
@@ -387,6 +462,50 @@ def run(tier, seed):
             break
     lap("x6 regression")
 
+    # ---- weave / unify_complex directly: `selector-unify(A, B)` on complex operands, text against the model (as found)
+    upairs = [("a > b", "c > d"), ("a b", "c d"), ("a + b", "c ~ b"), ("#i a", "#i b"), (".a > .b", ".c .b"), (".x .a > .b", ".c .b"),
+              (".a ~ .b", ".c ~ .b"), (".a ~ .b", ".c + .b"), (".a > .b", ".c + .b"), ("[t]:focus + b + a", ".y ~ a"),
+              (".a .b .c", ".a .d .c"), (".a.x .c", ".a .c"), ("#i.x > .c", "#i .d .c")]
+    for _ in range(260 if not big else 3000):
+        sib = rng.random() < 0.3
+        pair = []
+        for _k in range(2):
+            x = G.gen_complex(rng, rng.choice([2, 3]), 0, False, False)
+            if not sib:
+                x = [(">" if (isinstance(c, str) and c in "+~") else c) for c in x]
+            pair.append(G.list_text([x]))
+        upairs.append(tuple(pair))
+
+    def sq(t):
+        return '"' + t.replace("\\", "\\\\").replace('"', '\\"') + '"'
+
+    usrc = "\n".join(f"x{{i:{k}; v: selector-unify({sq(a)}, {sq(b)})}}" for k, (a, b) in enumerate(upairs))
+    uans = pool.map([compile_job(usrc, syntax="scss")], timeout=60)[0]
+    umodel = driver([f"ext unifyx 1 {H(a)} {H(b)}" for a, b in upairs])
+    if uans.get("status") != "ok":
+        ck.hist("weave-unify:batch-" + str(uans.get("status")))
+        ck.cov["weave_unify_batch_error"] = str((uans.get("err") or {}).get("message") or uans.get("panic"))[:200]
+    else:
+        uvals = {}
+        for _ctx, _sel, decls in cssread.flat_rules(cssread.parse(uans["css"])):
+            d = dict(decls)
+            if "i" in d:
+                uvals[int(d["i"])] = d.get("v")
+        for k, (a, b) in enumerate(upairs):
+            m = umodel[k]
+            kind = "sibling" if any(c in a + b for c in "+~") else "desc-child"
+            if not m.startswith("ok"):
+                ck.hist("weave-unify:" + m.split(" ")[0])
+                continue
+            mt = None if m == "ok null" else unhex(m.split(" ")[1])
+            gt = uvals.get(k)
+            case = f"selector-unify({sq(a)}, {sq(b)})"
+            if (mt is None) != (gt is None) or (mt is not None and pe_norm(mt) != pe_norm(gt)):
+                disagree_early.append({"case": case, "model_observation": mt, "impl_observation": gt})
+            ck.hist(f"weave-unify:{kind}:" + ("null" if mt is None else "woven" if "," in mt or len(mt.split()) > max(len(a.split()), len(b.split())) else "merged"))
+            ck.count(case, mt is not None)
+    lap("weave-unify")
+
     # model runs + expectations
     lines = []
     for items, _ in sheets:
@@ -394,12 +513,17 @@ def run(tier, seed):
         lines.append("ext run 1 1 0 " + d)        # the code as it stands: D16/D18 switches on, repaired walk in trim
         lines.append("ext expect " + d)
     outs = driver(lines)
+    # complex extenders: the model with unify_complex / weave (as found: X3 switch on)
+    xouts = driver(["ext runx 1 1 0 1 " + driver_items(items) for items, _ in sheets])
     lap("model runs")
 
     def disagree(d):
         ck.cov["model_disagreements"] += 1
         if len(ck.disagreements) < 6:
             ck.disagreements.append(d)
+
+    for d0 in disagree_early:
+        disagree(d0)
 
     follow, fmeta = [], []
     for n, ((items, meta), text) in enumerate(zip(sheets, texts)):
@@ -409,6 +533,14 @@ def run(tier, seed):
         ck.hist("extenders:" + ("complex" if meta["complex_extender"] else "compound-lists"))
         if meta["media"]:
             ck.hist("with-@media")
+        if meta.get("weave_kind"):
+            ck.hist("gen:weave-" + meta["weave_kind"])
+        if meta.get("cycle_len"):
+            ck.hist(f"gen:cycle-{meta['cycle_len']}")
+        if any(it[0] == "ext" and it[5] for it in items):
+            ck.hist("gen:extender-inside-@media")
+        if "%" in text:
+            ck.hist("gen:placeholder")
         if g[0] in ("panic", "timeout", "abort", "bad"):
             tags = ["crash"]
             msg = str(g[1])
@@ -440,8 +572,11 @@ def run(tier, seed):
                 continue
         if g[0] == "err":
             cls = err_class(g[1])
-            if cls == "media-merge" and m_run == "err media-merge":
+            if cls == "media-merge" and (m_run == "err media-merge" or (m_run == "unsupported" and xouts[n] == "err media-merge")):
                 pass
+            elif m_run == "unsupported":
+                if xouts[n].startswith("ok"):
+                    disagree({"case": text, "model_observation": xouts[n], "impl_observation": "error: " + g[1][:120]})
             elif m_run.startswith("ok") or (m_run.startswith("err") and m_run != "err " + cls):
                 disagree({"case": text, "model_observation": m_run, "impl_observation": "error: " + g[1][:120]})
             ck.count(text, False)
@@ -463,6 +598,34 @@ def run(tier, seed):
                 elif gs is not None and len(gs) <= 2500:
                     follow.append(f"sel equivspec {H(gs)} {ms} {seed * 53 + n} {NR} 0")
                     fmeta.append(("tie", n, rid, gs, unhex(ms)))
+        elif m_run == "unsupported" and xouts[n].startswith("ok"):
+            # complex extenders: model = extend_compound/unify_complex/extend_complex/weave; compared as text first
+            msels = xouts[n].split(" ")[1:]
+            ck.hist("tie:weave-fragment")
+            if meta.get("weave_kind"):
+                ck.hist("tie:weave-fragment:" + meta["weave_kind"])
+            all_text = True
+            for rid, ms in zip(ids, msels):
+                gs = found.get(rid, (None,))[0]
+                if (ms == "-") != (gs is None):
+                    all_text = False
+                    disagree({"case": text, "rule": rid, "model_observation": unhex(ms) if ms != "-" else None, "impl_observation": gs})
+                elif gs is not None and pe_norm(gs) != pe_norm(unhex(ms)):
+                    all_text = False
+                    if len(gs) <= 2500:
+                        follow.append(f"sel equivspec {H(gs)} {ms} {seed * 53 + n} {NR} 0")
+                        fmeta.append(("tie", n, rid, gs, unhex(ms)))
+                    else:
+                        disagree({"case": text, "rule": rid, "model_observation": unhex(ms)[:300], "impl_observation": gs[:300]})
+                elif gs is not None and pe_norm(gs) != pe_norm(originals[rid]):
+                    ck.hist("tie:weave-rule-rewritten-text-equal")
+            ck.hist("tie:weave-sheet-" + ("text-equal" if all_text else "text-differs"))
+            if meta["chain"]:
+                # chains / cycles as whole sheets: add_extension + extend_existing_extensions (Grass.Extend.addExtensionX)
+                kind = f"cycle-{meta['cycle_len']}" if meta.get("cycle_len") else f"hops-{meta['hops']}" if meta.get("hops") else "other"
+                ck.hist(f"tie:chain-sheet:{kind}:" + ("text-equal" if all_text else "text-differs"))
+        elif m_run == "unsupported" and xouts[n].startswith("err"):
+            disagree({"case": text, "model_observation": xouts[n], "impl_observation": "compiled"})
         elif m_run == "unsupported":
             ck.cov["unsupported_dropped"] += 1
             ck.hist("tie:outside-fragment")
